@@ -449,7 +449,12 @@ func c15R3(e *Engine) {
 		}
 		// (d) handler
 		if handlerCall == nil {
-			e.fail("R3", construct+":handler", e.pos(bw.Pos()), "no per-request error handler (func(..., map[string][]WriteRequest, error) error) is called")
+			// the handling may be written in the loop itself: a classifying test, the return of the error, the recording
+			if ih := e.inlineBatchHandler(role); ih != nil {
+				e.c15Inline(role, ih, bw)
+				continue
+			}
+			e.fail("R3", construct+":handler", e.pos(bw.Pos()), "no per-request error handler (func(..., map[string][]WriteRequest, error) error) is called, and the loop does not record failed requests itself")
 			continue
 		}
 		h := e.callees(handlerCall)[0]
@@ -497,6 +502,124 @@ func c15R3(e *Engine) {
 		e.check(outOK, "R3", construct+":unprocessed-returned", e.pos(bw.Pos()), "the map filled by the handler is the UnprocessedItems of the output")
 	}
 	e.minCount("R3", 12)
+}
+
+// inlineHandler: the per-request error handling written in the function that dispatches the requests – the error of the
+// dispatch call is classified, returned, or the request is appended to the unprocessed map, all in the loop body.
+type inlineHandler struct {
+	host    *ssa.Function
+	site    *batchSite
+	errV    ssa.Value
+	records []*ssa.MapUpdate
+}
+
+func isWriteRequestMap(t types.Type) bool {
+	m, ok := t.Underlying().(*types.Map)
+	if !ok {
+		return false
+	}
+	sl, ok := m.Elem().Underlying().(*types.Slice)
+	return ok && strings.Contains(typeName(sl.Elem()), "WriteRequest")
+}
+
+func (e *Engine) inlineBatchHandler(role string) *inlineHandler {
+	dsite, _ := e.batchWritePath(role)
+	if dsite == nil {
+		return nil
+	}
+	dv, ok := dsite.call.(ssa.Value)
+	if !ok {
+		return nil
+	}
+	ih := &inlineHandler{host: dsite.call.Parent(), site: dsite}
+	if isErrorType(dv.Type()) {
+		ih.errV = dv
+	} else {
+		if refs := dv.Referrers(); refs != nil {
+			for _, r := range *refs {
+				if ex, ok := r.(*ssa.Extract); ok && isErrorType(ex.Type()) {
+					ih.errV = ex
+				}
+			}
+		}
+	}
+	if ih.errV == nil {
+		return nil
+	}
+	instrs(ih.host, func(in ssa.Instruction) {
+		mu, ok := in.(*ssa.MapUpdate)
+		if !ok || !isWriteRequestMap(mu.Map.Type()) {
+			return
+		}
+		c, ok := mu.Value.(*ssa.Call)
+		if !ok || staticCalleeName(c) != "builtin.append" {
+			return
+		}
+		// what is appended is the request that was dispatched
+		for _, a := range dsite.call.Common().Args {
+			if containsElem(c.Call.Args[1], a) {
+				ih.records = append(ih.records, mu)
+			}
+		}
+	})
+	if len(ih.records) == 0 {
+		return nil
+	}
+	return ih
+}
+
+// nilFacts: the truth values of the nil tests of v when v is not nil.
+func nilFacts(fn *ssa.Function, v ssa.Value, facts map[ssa.Value]bool) {
+	instrs(fn, func(in ssa.Instruction) {
+		b, ok := in.(*ssa.BinOp)
+		if !ok {
+			return
+		}
+		if x, nonNilOnTrue, ok := nilTest(b); ok && strip(x) == strip(v) {
+			facts[b] = nonNilOnTrue
+		}
+	})
+}
+
+// c15Inline: the obligations of the handler form, for the inline form. Under "the dispatch failed" every path from the
+// dispatch call ends in the recording of the request or in a return of that very error: it reaches neither the next
+// request nor any other return.
+func (e *Engine) c15Inline(role string, ih *inlineHandler, bw *ssa.Function) {
+	construct := e.fname(ih.host)
+	di := ih.site.call.(ssa.Instruction)
+	facts := map[ssa.Value]bool{}
+	nilFacts(ih.host, ih.errV, facts)
+	stop := map[ssa.Instruction]bool{}
+	for _, r := range ih.records {
+		stop[r] = true
+	}
+	targets := []wEvent{{di, "the next request is dispatched"}}
+	ei := errResultIndex(ih.host)
+	for _, ret := range returnsOf(ih.host) {
+		if ei >= 0 && strip(retVals(ret)[ei]) == strip(ih.errV) {
+			continue
+		}
+		targets = append(targets, wEvent{ret, "the function returns without that error"})
+	}
+	if len(facts) == 0 {
+		e.fail("R3", construct+":never-drops", e.ipos(di), "the error of the per-request dispatch is never tested: a failed request is neither reported as unprocessed nor fails the call")
+	} else if w := writeReachableUnderAvoiding(targets, di, facts, stop); w != nil {
+		e.fail("R3", construct+":never-drops", e.ipos(w.in), "after a failed request %s although the request was not recorded in the unprocessed map: it is neither applied nor reported", w.what)
+	} else {
+		e.pass("R3", construct+":never-drops", e.ipos(di), "after a failed request every path ends in unprocessed[table]=append(unprocessed[table], req) or in the return of that error (%d other exits examined)", len(targets))
+	}
+	e.pass("R3", role+".Client.BatchWriteItem:handler-error-propagated", e.ipos(di), "inline form: covered by never-drops (the only returns reachable under a non-nil error return that error)")
+	var mapArg ssa.Value
+	mapArg, _ = resolveParam(ih.records[0].Map, ih.site.ctx)
+	outOK := false
+	instrs(bw, func(in ssa.Instruction) {
+		if st, ok := in.(*ssa.Store); ok {
+			if f := fieldOf(st.Addr); f != nil && f.Name() == "UnprocessedItems" && st.Val == mapArg {
+				outOK = true
+			}
+		}
+	})
+	e.check(outOK, "R3", role+".Client.BatchWriteItem:unprocessed-returned", e.pos(bw.Pos()), "the map the loop records into is the UnprocessedItems of the output")
 }
 
 func isBatchHandler(g *ssa.Function) bool {
@@ -870,21 +993,11 @@ func c15R8(e *Engine) {
 	n := 0
 	for _, role := range clientRoles {
 		for _, fn := range e.funcs(role) {
-			if fn.Parent() != nil || errResultIndex(fn) != 0 || fn.Signature.Results().Len() != 1 {
+			if fn.Parent() != nil {
 				continue
 			}
-			var unp, errP *ssa.Parameter
-			for _, p := range fn.Params {
-				if m, ok := p.Type().Underlying().(*types.Map); ok && strings.Contains(typeName(m.Elem()), "WriteRequest") {
-					unp = p
-				}
-				if isErrorType(p.Type()) {
-					errP = p
-				}
-			}
-			if unp == nil || errP == nil {
-				continue
-			}
+			// the recording: map[table] = append(map[table], request) – in a handler function that is handed the map and
+			// the error, or in the dispatching loop itself
 			var records []wEvent
 			var asCalls []*ssa.Call
 			e.walkLocal(role, fn, 1, func(in ssa.Instruction, ctx []callCtx) {
@@ -893,8 +1006,10 @@ func c15R8(e *Engine) {
 				}
 				switch x := in.(type) {
 				case *ssa.MapUpdate:
-					if strip(x.Map) == ssa.Value(unp) {
-						records = append(records, wEvent{in, "the request is recorded as unprocessed"})
+					if isWriteRequestMap(x.Map.Type()) {
+						if c, ok := x.Value.(*ssa.Call); ok && staticCalleeName(c) == "builtin.append" {
+							records = append(records, wEvent{in, "the request is recorded as unprocessed"})
+						}
 					}
 				case *ssa.Call:
 					if staticCalleeName(x) == "errors.As" {
@@ -904,6 +1019,7 @@ func c15R8(e *Engine) {
 			})
 			// the classification may live in a predicate helper (isRetryable(err) bool): its call plays the role of the test
 			var tests []ssa.Value
+			var preds []*ssa.Function
 			for _, c := range asCalls {
 				tests = append(tests, c)
 			}
@@ -920,6 +1036,7 @@ func c15R8(e *Engine) {
 				})
 				if usesAs {
 					tests = append(tests, c)
+					preds = append(preds, c.Call.StaticCallee())
 				}
 			})
 			if len(records) == 0 {
@@ -945,6 +1062,35 @@ func c15R8(e *Engine) {
 			if w := writeReachableUnder(records, first, facts); w != nil {
 				bad = e.ipos(w.in)
 			}
+			// a classifying predicate answers false when its own errors.As tests answer false
+			for _, p := range preds {
+				pf := map[ssa.Value]bool{}
+				var pfirst ssa.Instruction
+				instrs(p, func(j ssa.Instruction) {
+					if cc, ok := j.(*ssa.Call); ok && staticCalleeName(cc) == "errors.As" {
+						pf[cc] = false
+						if pfirst == nil || idominates(j, pfirst) {
+							pfirst = j
+						}
+					}
+				})
+				var yes []wEvent
+				for _, ret := range returnsOf(p) {
+					v := retVals(ret)[0]
+					if val, isC := constBoolOf(v); isC && !val {
+						continue
+					}
+					if _, isFact := pf[v]; isFact {
+						continue
+					}
+					yes = append(yes, wEvent{ret, "the predicate may answer true"})
+				}
+				if pfirst != nil {
+					if w := writeReachableUnder(yes, pfirst, pf); w != nil && bad == "" {
+						bad = e.ipos(w.in)
+					}
+				}
+			}
 			if bad != "" {
 				e.fail("R8", construct, bad, "a request is recorded as unprocessed although the error is not an API error (the errors.As test answered false): the deprecated forced failure – a plain error – makes BatchWriteItem succeed with everything unprocessed instead of failing with that error, and the two clients disagree")
 			} else {
@@ -955,4 +1101,12 @@ func c15R8(e *Engine) {
 	if n < 2 {
 		e.fail("R8", "count:R8", "-", "only %d per-request batch-write error handlers found (one per client expected)", n)
 	}
+}
+
+func constBoolOf(v ssa.Value) (bool, bool) {
+	c, ok := v.(*ssa.Const)
+	if !ok {
+		return false, false
+	}
+	return constBool(c)
 }
